@@ -1,12 +1,16 @@
 """
 C09 translator: the statistic formulas of LocalNetwork / LocalNetworkXML, read from the C++ text of the
-current tree, written as Lean definitions over [Scalar K] [Trig K]  ->  lean/Gama/Gen/StatsGen.lean.
+current tree, written as Lean definitions over [Scalar K] [StatsTrig K]  ->  lean/Gama/Gen/StatsGen.lean.
 
 What is read (TieBroken if any of it can no longer be found / parsed):
   network.cpp : LocalNetwork::m_0, m_0_aposteriori_value, conf_int_coef, conf_pr(double), std_error_ellipse,
                 the two statistic blocks at the end of vyrovnani_ (sigma_L, vahkopr)
   network.h   : unknown_stdev, weight_obs, degrees_of_freedom, stdev_res, studentized_residual, obs_control
-  localnetworkxml.cpp : the <cov-mat> entry  m2 = m_0()*m_0();  m2*qxx(..)
+  localnetworkxml.cpp : the <cov-mat> entry  m2 = m_0()*m_0();  m2*qxx(..), <aposteriori>, <ratio>, <err-obs>/<err-adj>,
+                <confidence-scale>
+  results/text/adjusted_unknowns.h, adjusted_observations.h : every use of `kki = IS->conf_int_coef()` (the
+                confidence half-widths `stdev*kki`) and the accessor each multiplied variable was read from
+  network.h   : stdev_obs, wcoef_res are plain reads of sigma_L, vahkopr
 
 How: member accesses/calls that denote *inputs* of a formula are replaced by parameter names (table ATOMS);
 the remaining text is a tiny imperative language (declarations, assignments, +=, if / else, return, throw,
@@ -277,7 +281,7 @@ def parse_expr(src):
 
 # ---------------------------------------------------------------- emitting Lean
 
-FUN = {"sqrt": "Scalar.sqrt", "fabs": "Scalar.abs", "atan2": "Trig.atan2"}
+FUN = {"sqrt": "Scalar.sqrt", "fabs": "Scalar.abs", "atan2": "StatsTrig.atan2"}
 IGNORED_CALLS = {"vyrovnani_"}
 
 
@@ -337,7 +341,7 @@ class Emit:
             return self.lit(e[1])
         if k == "id":
             if e[1] == "M_PI":
-                return "Trig.pi"
+                return "StatsTrig.pi"
             t = self.ty(e)
             if want == "K" and t == "Int":
                 return f"Scalar.ofInt {e[1]}"
@@ -511,7 +515,7 @@ def gen(repo):
     out = []
 
     def emit(name, params, rtype, body, doc, trig=False):
-        kp = (K_PARAMS + (" [Trig K]" if trig else "") + " ") if "K" in (params + rtype).replace("Int", "") else ""
+        kp = (K_PARAMS + (" [StatsTrig K]" if trig else "") + " ") if "K" in (params + rtype).replace("Int", "") else ""
         out.append(f"/-- {doc} -/\ndef {name} {kp}{params} : {rtype} :=\n{body}\n")
 
     # ---- header one-liners
@@ -632,8 +636,73 @@ def gen(repo):
                       ("decl", "double", "ev", parse_expr(sub(m1.group(2)))), ("return", None)]),
          "localnetworkxml.cpp observations: `em = v(i)/(wcoef_res(i)*weight_obs(i)); ev = em - v(i)` (<err-obs>, <err-adj>)")
 
+
+    # ---- confidence half-widths: the text writers print `<stdev>*kki` with `kki = IS->conf_int_coef()`;
+    #      the XML writer prints the coefficient itself as <confidence-scale>
+    sites = []
+    product = None
+    tdir = repo / "lib/gnu_gama/local/results/text"
+    for fname in ("adjusted_unknowns.h", "adjusted_observations.h"):
+        t = strip_comments((tdir / fname).read_text(errors="replace"))
+        decls = re.findall(r"\bdouble\s+kki\s*=\s*([^;]+);", t)
+        if decls != ["IS->conf_int_coef()"] or re.search(r"\bkki\s*(?:[-+*/]?=)[^=]", re.sub(r"\bdouble\s+kki\s*=", "", t)):
+            raise Unreadable(fname + ": `double kki = IS->conf_int_coef();` changed")
+        body = re.sub(r"\bdouble\s+kki\s*=\s*[^;]+;", "", t)
+        for mk in re.finditer(r"\bkki\b", body):
+            st0 = body.rfind(";", 0, mk.start()) + 1
+            st1 = body.index(";", mk.end())
+            stmt = " ".join(body[st0:st1].split())
+            mm = re.fullmatch(r"out\s*<<\s*((\w+)\s*\*\s*kki)", stmt)
+            if not mm:
+                raise Unreadable(fname + ": use of kki that is not `out << <stdev>*kki`: " + stmt)
+            var = mm.group(2)
+            # the nearest preceding definition of the multiplied variable, and what rescales it afterwards
+            defs = [d for d in re.finditer(r"\bdouble\s+" + var + r"\s*=\s*([^;]+);", body) if d.start() < mk.start()]
+            if not defs:
+                raise Unreadable(fname + ": no definition of " + var)
+            d = defs[-1]
+            dm = re.fullmatch(r"IS->(\w+)\(([^()]*(?:\(\))?)\)(\s*\*\s*scale)?", " ".join(d.group(1).split()))
+            if not dm:
+                raise Unreadable(fname + ": " + var + " is not a standard-deviation accessor: " + d.group(1))
+            between = body[d.end():mk.start()]
+            others = [a for a in re.findall(r"\b" + var + r"\s*([-+*/]?=)\s*([^;]+);", between)]
+            if any(o != ("*=", "scale") for o in others):
+                raise Unreadable(fname + ": " + var + " is modified before it is printed: " + str(others))
+            unit = bool(dm.group(3)) or bool(others)
+            e = parse_expr(mm.group(1).replace(var, "stdev"))
+            if product is None:
+                product = e
+            elif product != e:
+                raise Unreadable(fname + ": half-width products differ")
+            sites.append((fname, var, dm.group(1), unit))
+    if not sites:
+        raise Unreadable("no confidence half-width site found")
+    emit("confHalfWidth", "(stdev kki : K)", "K",
+         Emit({"stdev": "K", "kki": "K"}).function([("return", product)]),
+         "results/text/adjusted_unknowns.h, adjusted_observations.h: `out << m*kki` with `double kki = IS->conf_int_coef()` "
+         "(the only uses of kki in these writers)")
+    rows = ",\n".join(f'   ("{f}", "{v}", "{a}", {"true" if u else "false"})' for f, v, a, u in sites)
+    out.append("/-- every site that prints a confidence half-width: (file, multiplied variable, the LocalNetwork accessor "
+               "it was read from, rescaled to the angular output unit before printing) -/\n"
+               f"def halfWidthSites : List (String × String × String × Bool) :=\n  [{rows.strip()}]\n")
+    if not re.search(r'tagnl\(out,\s*"confidence-scale",\s*netinfo->conf_int_coef\(\)\)', x):
+        raise Unreadable("localnetworkxml.cpp: <confidence-scale> changed")
+    # ---- accessors that only read a stored vector
+    reads = []
+    for acc, vec in (("stdev_obs", "sigma_L"), ("wcoef_res", "vahkopr")):
+        b = " ".join(strip_comments(function_body(nh, r"double\s+" + acc + r"\s*\(int i\)\s*\{")).split())
+        mr = re.fullmatch(r"return (\w+)\(i\);", b)
+        if not mr:
+            raise Unreadable("network.h " + acc + ": no longer a plain read")
+        reads.append((acc, mr.group(1)))
+    out.append("/-- network.h: accessors that return the element of a vector filled by vyrovnani_ "
+               "(`sigma_L(n) = ...` is `sigmaL`, `vahkopr(i) = ...` is `wcoefRes`) -/\n"
+               "def accessorReads : List (String × String) :=\n  ["
+               + ", ".join(f'("{a}", "{v}")' for a, v in reads) + "]\n")
+
     head = ("/-\n  GENERATED by tools/gen/c09_stats.py from lib/gnu_gama/local/network.{h,cpp} and\n"
-            "  lib/gnu_gama/xml/localnetworkxml.cpp of the current tree.  DO NOT EDIT.\n"
+            "  lib/gnu_gama/xml/localnetworkxml.cpp, lib/gnu_gama/local/results/text/adjusted_{unknowns,observations}.h\n"
+            "  of the current tree.  DO NOT EDIT.\n"
             "  Props/C09.lean proves that every definition here equals the reference model in\n"
             "  Gama/Model/Stats.lean, about which the property theorems are stated.\n-/\n"
             "import Gama.Model.Stats\nnamespace Gama.StatsGen\nopen Gama\n\n")
